@@ -2,4 +2,4 @@ from .. import deductive
 
 
 def run(tier):
-    return deductive.verify_module('factor', nproc=14)
+    return deductive.verify_module('factor', nproc=14) + [deductive.lemma_report()]
